@@ -226,7 +226,9 @@ fn selfx_records(w: &mut NdWriter) -> usize {
 fn tplx_records(w: &mut NdWriter) -> usize {
   let lang = SupportLang::JavaScript;
   let sources = ["oldName(fooBar);\n", "x = oldName(\"é🦀\", b);\n", "oldName(a_b-c, [1, 2]); oldName(z)\n"];
-  let templates = ["newName($UP, $ARG, '$HEAD')", "$UP", "$$$REST|$UP|$NOPE|$up|$", "f($HEAD$HEAD, $ARG)", "$KEBAB-$UP", "$$$REST"];
+  let templates = ["newName($UP, $ARG, '$HEAD')", "$UP", "$$$REST|$UP|$NOPE|$up|$", "f($HEAD$HEAD, $ARG)", "$KEBAB-$UP", "$$$REST",
+                   // two sigils: the spelling that captures unnamed nodes in a pattern; in a template it names the same variable
+                   "$$ARG|$$UP|$$$REST|$$NOPE", "g($$HEAD$$ARG)"];
   let transform = json!({
     "UP": {"convert": {"source": "$ARG", "toCase": "upperCase"}},
     "HEAD": {"substring": {"source": "$ARG", "startChar": 0, "endChar": 3}},
